@@ -513,8 +513,12 @@ function exploreConformance(cs, bundle, code, rep) {
   if (seen.size > 1) rep.nontrivialCase(cs.name)
 }
 
+/** local-name walk (see tmplgen.localWalkCases): explored at history depth 1 */
+function walkCorpus(thorough) {
+  return MODE === 'C06' || MODE === 'C07' ? G.localWalkCases(thorough ? 230 : 112, 1) : []
+}
 function corpus(thorough) {
-  return G.corpus(thorough).filter(usable)
+  return [...G.corpus(thorough).filter(usable), ...walkCorpus(thorough)]
 }
 function slotCorpus(thorough) {
   // (content of the element c without slot: references is explored here as well: c is then a component with dynamic slots)
@@ -556,7 +560,7 @@ function runShard(info, thorough) {
           exploreEquivalence(cs, bundle, printedBundle, rep, thorough)
         } else if (MODE === 'C04') exploreConformance(cs, bundle, res[i].outputs.groups.ok, rep)
         else if (cs.slotCase) exploreSlotCase(cs, bundle, rep, thorough)
-        else exploreCase(cs, bundle, rep, true)
+        else exploreCase(cs, bundle, rep, !cs.walk)
       } catch (e) { rep.machineryErrors.push(`explorer failed on ${cs.name}: ${e && e.stack}`) }
       if ((s + i) % 307 === 0) rep.sample({ case: cs.name, template: cs.__src, initial_states: 2 })
     })
@@ -591,7 +595,7 @@ function replayOne(rec) {
     const a = once(); const b = once()
     return { deterministic: key(a) === key(b), failure: a[0] === a[1] ? null : `original ${a[0]} vs re-printed ${a[1]}` }
   }
-  const cs = G.corpus(true).find((c) => c.name === rec.case)
+  const cs = [...G.corpus(true), ...G.localWalkCases(230, 1)].find((c) => c.name === rec.case)
   if (!cs) return { deterministic: true, failure: null, note: 'case no longer in the corpus' }
   const files = [[MAIN, T.print(cs.main).text]]
   for (const p of Object.keys(cs.files)) files.push([p, T.print(cs.files[p]).text])
